@@ -3,12 +3,13 @@ import ast
 
 from ..core import Report, Finding, AnalysisError
 from ..facts import Facts
-from .. import encprops, lexrules
+from .. import encprops, lexrules, tablefold
 
 LEVEL = 'other'
 
 
 def check_base_offset(rep, facts):
+    tablefold.settle(facts, 'BASE_OFFSET_INSTRUCTIONS')     # members added after the literal (.add, |=, .update)
     have = facts.sets.get('BASE_OFFSET_INSTRUCTIONS')
     if have is None:
         raise AnalysisError('anchor vanished: BASE_OFFSET_INSTRUCTIONS')
@@ -18,7 +19,11 @@ def check_base_offset(rep, facts):
     for m in sorted(want & present):
         rep.check(m in have, 'R13.2.base-offset', '`{} reg, imm(reg)` is accepted'.format(m),
                   lambda m=m: Finding('R13.2.base-offset', 'BASE_OFFSET_INSTRUCTIONS', 'missing ' + m, '{} is a base+offset instruction but its `imm(reg)` spelling is not recognised'.format(m), line=node.lineno))
-    extra = sorted(have - want)
+    # an entry that is no mnemonic of any table can never be consulted for a line that parses: dead, not a spelling
+    dead = sorted(have - want - present)
+    if dead:
+        rep.note('BASE_OFFSET_INSTRUCTIONS holds {} which are no mnemonics of the instruction tables (never consulted)'.format(dead))
+    extra = sorted((have - want) & present)
     rep.check(not extra, 'R13.2.base-offset', 'only base+offset instructions take the imm(reg) spelling',
               lambda: Finding('R13.2.base-offset', 'BASE_OFFSET_INSTRUCTIONS', 'extra', '{} are given the imm(reg) spelling although they have no base register + offset form'.format(extra), line=node.lineno), nontrivial=False)
 
@@ -88,17 +93,92 @@ NUMERIC_SPELLINGS = ['0', '7', '42', '-1', '+5', '0x1c', '0x1C', '0X1C', '0X1c',
                      '00', '0x', '0b', '0b2', '0o8', '12a', 'abc', '', 'x1', '1.5', '--1', '0xg']
 
 
+def numeric_literal_helpers(facts):
+    """The functions that tell numbers from names for the parser: `is_int` if the module has it, and every one-argument predicate
+    that decides, in a function reachable from parse_item, whether an operand is packaged as `[x]` (a number) or as
+    `[<modifier>, x]` (a reference) - under whatever name."""
+    import ast as _ast
+    out = []
+    if 'is_int' in facts.funcs:
+        out.append('is_int')
+    for fname in lexrules.reachable_functions(facts, 'parse_item'):
+        for node in _ast.walk(facts.funcs[fname]):
+            if not isinstance(node, _ast.If):
+                continue
+            for c in _ast.walk(node.test):
+                if (isinstance(c, _ast.Call) and isinstance(c.func, _ast.Name) and c.func.id in facts.funcs and len(c.args) == 1 and not c.keywords
+                        and isinstance(c.args[0], _ast.Name) and c.func.id not in out):
+                    x = c.args[0].id
+                    sides = [node.body, node.orelse]
+                    packaged = [any(isinstance(n, _ast.List) and any(isinstance(e, _ast.Name) and e.id == x for e in n.elts)
+                                    for st in side for n in _ast.walk(st)) for side in sides]
+                    if not (all(packaged) and len(facts.funcs[c.func.id].args.args) == 1 and node.test is c):
+                        continue
+                    # the side taken when the predicate holds packages the operand alone (`[x]`: a number), the other side with a
+                    # modifier in front (`[m, x]`: a reference); the reverse reading is a `this is a name` predicate, not this helper
+                    def sizes(side):
+                        return {len(n.elts) for st in side for n in _ast.walk(st)
+                                if isinstance(n, _ast.List) and any(isinstance(e, _ast.Name) and e.id == x for e in n.elts)}
+                    if sizes(node.body) == {1} and all(k > 1 for k in sizes(node.orelse)):
+                        out.append(c.func.id)
+    return out
+
+
 def check_numeric_literal_test(rep, facts):
     """R13.7: the helper that tells numbers from names (`is_int`, used for branch / jump targets and shift amounts) accepts every
     spelling of an integer that int(text, 0) accepts - upper- and lower-case radix prefixes and digits alike - and nothing else.
-    Decided when it *is* int(text, 0) under a try, or a regular expression constant (matched, as a constant, against a fixed list
-    of spellings with the stdlib engine); anything else is not understood."""
+    Decided when it *is* int(text, 0) under a try, or a regular expression constant whose language (as it is applied) is compared with
+    that of int(text, 0) (intlang); anything else is not understood.  No helper found at all is no verdict, not a pass."""
+    helpers = numeric_literal_helpers(facts)
+    if not helpers:
+        raise AnalysisError('anchor vanished: no helper that tells numbers from names (is_int, or a predicate deciding between `[x]` and `[modifier, x]` '
+                            'for an operand of parse_item) was found')
+    for h in helpers:
+        check_one_numeric_literal_test(rep, facts, h)
+
+
+def match_polarity(fn, call):
+    """How the result of the pattern match decides the helper's answer: True (a match means `is a number`), False (inverted), None
+    (not followed)."""
+    import ast as _ast
+    pos = True
+    cur, par = call, getattr(call, '_parent', None)
+    while par is not None and not isinstance(par, _ast.stmt):
+        if isinstance(par, _ast.Compare) and len(par.ops) == 1 and par.left is cur and isinstance(par.comparators[0], _ast.Constant) and par.comparators[0].value is None:
+            if isinstance(par.ops[0], (_ast.Is, _ast.Eq)):
+                pos = not pos
+            elif not isinstance(par.ops[0], (_ast.IsNot, _ast.NotEq)):
+                return None
+        elif isinstance(par, _ast.UnaryOp) and isinstance(par.op, _ast.Not):
+            pos = not pos
+        elif isinstance(par, _ast.Call) and isinstance(par.func, _ast.Name) and par.func.id == 'bool' and len(par.args) == 1:
+            pass
+        else:
+            return None
+        cur, par = par, getattr(par, '_parent', None)
+    if isinstance(par, _ast.Return) and par.value is cur:
+        return pos
+
+    def const_return(stmts):
+        body = [st for st in stmts if not isinstance(st, _ast.Pass)]
+        if len(body) == 1 and isinstance(body[0], _ast.Return) and isinstance(body[0].value, _ast.Constant) and isinstance(body[0].value.value, bool):
+            return body[0].value.value
+        return None
+    if isinstance(par, _ast.If) and par.test is cur and getattr(par, '_parent', None) is fn:
+        then = const_return(par.body)
+        rest = par.orelse or fn.body[fn.body.index(par) + 1:]
+        other = const_return(rest)
+        if then is None or other is None or then == other:
+            return None
+        return pos if then else not pos
+    return None
+
+
+def check_one_numeric_literal_test(rep, facts, helper):
     import re as _re
     import ast as _ast
-    fn = facts.funcs.get('is_int')
-    if fn is None:
-        return
-    from ..astutil import dotted, unparse
+    fn = facts.funcs[helper]
+    from ..astutil import dotted, unparse, fold, NotConstant
     params = [a.arg for a in fn.args.args]
     calls = [n for n in _ast.walk(fn) if isinstance(n, _ast.Call)]
     ints = [c for c in calls if dotted(c.func) == 'int' and c.args and isinstance(c.args[0], _ast.Name) and c.args[0].id in params]
@@ -106,12 +186,19 @@ def check_numeric_literal_test(rep, facts):
     if ints:
         for c in ints:
             base = c.args[1] if len(c.args) > 1 else next((k.value for k in c.keywords if k.arg == 'base'), None)
-            ok = isinstance(base, _ast.Constant) and base.value == 0
-            rep.check(ok, 'R13.7.numeric-literals', 'is_int decides with int(text, 0)',
-                      lambda c=c: Finding('R13.7.numeric-literals', 'is_int', c, 'numbers are recognised with {}: hexadecimal / binary / octal spellings are not integers to it, so `beq t0, zero, 0x1c` is read as a label'.format(unparse(c)), line=c.lineno))
+            if base is None:
+                value = 10
+            else:
+                try:
+                    value = fold(base, facts.consts)       # a literal or a named module constant
+                except NotConstant:
+                    raise AnalysisError('{}: the base of {} is not a constant the rules can fold'.format(helper, unparse(c)))
+            ok = value == 0 and not isinstance(value, bool)
+            rep.check(ok, 'R13.7.numeric-literals', '{} decides with int(text, 0)'.format(helper),
+                      lambda c=c: Finding('R13.7.numeric-literals', helper, c, 'numbers are recognised with {}: hexadecimal / binary / octal spellings are not integers to it, so `beq t0, zero, 0x1c` is read as a label'.format(unparse(c)), line=c.lineno))
         in_try = all(any(isinstance(p, _ast.Try) for p in parents_of_node(c)) for c in ints)
         if not in_try:
-            raise AnalysisError('is_int: int(text, 0) is not under a try (failure mode not understood)')
+            raise AnalysisError('{}: int(text, 0) is not under a try (failure mode not understood)'.format(helper))
         return
     # regular expression form
     pat = None
@@ -135,9 +222,13 @@ def check_numeric_literal_test(rep, facts):
                 if names & {'IGNORECASE', 'I'}:
                     flags |= _re.IGNORECASE
                 if names - {'IGNORECASE', 'I', 're'}:
-                    raise AnalysisError('is_int: regular expression flags {} not understood'.format(sorted(names)))
+                    raise AnalysisError(helper + ': regular expression flags {} not understood'.format(sorted(names)))
     if pat is None:
-        raise AnalysisError('is_int decides neither with int(text, 0) nor with a regular expression constant (not understood)')
+        raise AnalysisError('{} decides neither with int(text, 0) nor with a regular expression constant (not understood)'.format(helper))
+    polarity = match_polarity(fn, pat[2])
+    if polarity is not True:
+        raise AnalysisError('{}: how the result of `{}` decides the answer is {} (only `a match means: a number` is followed)'.format(
+            helper, unparse(pat[2])[:60], 'inverted' if polarity is False else 'not understood'))
     # decided: the language of the pattern (as it is applied) against the language of int(text, 0), as automata (intlang)
     from .. import intlang
     try:
@@ -162,7 +253,7 @@ def check_numeric_literal_test(rep, facts):
             parts.append('rejects {!r}, which int(text, 0) accepts'.format(w['missed']))
         if 'extra' in w:
             parts.append('accepts {!r}, which int(text, 0) rejects'.format(w['extra']))
-        rep.fail(Finding('R13.7.numeric-literals', 'is_int', pat[2],
+        rep.fail(Finding('R13.7.numeric-literals', helper, pat[2],
                          'the pattern {!r} {}: the same number spelled that way is treated differently (shortest witnesses of the difference of the two '
                          'languages)'.format(pat[0], ' and '.join(parts)), line=pat[2].lineno), instance='numeric literal spellings')
         return
@@ -180,11 +271,11 @@ def check_numeric_literal_test(rep, facts):
             wrong.append((s_, want))
     if wrong:
         s_, want = wrong[0]
-        rep.fail(Finding('R13.7.numeric-literals', 'is_int', pat[2],
+        rep.fail(Finding('R13.7.numeric-literals', helper, pat[2],
                          'the pattern {!r} {} {!r}, which int(text, 0) {}: the same number spelled that way is treated differently ({} such spellings in the sample)'.format(
                              pat[0], 'rejects' if want else 'accepts', s_, 'accepts' if want else 'rejects', len(wrong)), line=pat[2].lineno), instance='numeric literal spellings')
         return
-    raise AnalysisError('is_int uses the pattern {!r} ({}): it agrees with int(text, 0) on the sample spellings, equivalence not established'.format(pat[0], unsupported))
+    raise AnalysisError(helper + ' uses the pattern {!r} ({}): it agrees with int(text, 0) on the sample spellings, equivalence not established'.format(pat[0], unsupported))
 
 
 def parents_of_node(node):
@@ -209,35 +300,49 @@ def run(repo, tier):
     rep.trusted_base = ['CPython ast and re._parser', 'bbverif.wiring token provenance', 'bbverif.lexrules abstract values']
     rep.not_decided = ['equality of whole binaries under arbitrary combinations of rewrites, in particular the interaction of the special-cased string / error lexing '
                        'with indentation and comments', 'integers spelled in forms only eval or only int(., 0) accepts']
-    encprops.check_registers(rep, facts, 'R13.1.registers')
-    check_base_offset(rep, facts)
+    def step(rule, *args):
+        """One rule.  What it does not understand is a no-verdict for the whole check - reported at the end of the run, so that it
+        cannot mask a violation that another rule establishes (Report.undecided)."""
+        try:
+            return rule(*args)
+        except AnalysisError as e:
+            rep.undecided(str(e))
+            return None
+
+    step(encprops.check_registers, rep, facts, 'R13.1.registers')
+    step(check_base_offset, rep, facts)
     # the front end, decided on the dataflow of the line text / token lists / line objects / register operand (lexrules)
-    lexrules.check_lexer(rep, facts)
-    skips_blank = lexrules.check_reader(rep, facts)
-    lexrules.check_handover(rep, facts, skips_blank)
-    lexrules.check_operand_spelling(rep, facts)
-    try:
-        lexrules.check_register_numbers(rep, facts)
-    except AnalysisError as e:
-        # the lookup is not written inside lookup_register itself (a helper class / method): ask the interprocedural encoder
-        # interpreter whether every register operand is converted with int(., 0) before the table lookup
+    lexer = step(lexrules.check_lexer, rep, facts)
+    reader = step(lexrules.check_reader, rep, facts)
+    step(lexrules.check_handover, rep, facts, bool(reader))
+    if lexer is not None and reader is not None:
+        step(lexrules.check_line_ends, rep, reader, lexer)
+    step(lambda: lexrules.check_operand_spelling(rep, facts, numeric_literal_helpers(facts)))
+
+    def summaries_say():
         from ..encsum import register_spellings_normalised
-        verdict, bad = register_spellings_normalised(facts)
-        if verdict is None:
-            raise
-        rep.count('register table lookups analysed')
-        rep.check(verdict, 'R13.1.registers', 'numeric register spellings in any base go through int(., 0) (encoder summaries)',
-                  lambda: Finding('R13.1.registers', 'lookup_register', 'register lookup', 'register operands of {} reach the register table without int(., 0): hex / binary register numbers are not recognised'.format(
-                      sorted({m for m, p in bad})[:6]), line=facts.funcs['lookup_register'].lineno if 'lookup_register' in facts.funcs else 1), nontrivial=False)
-    check_numeric_literal_test(rep, facts)
-    try:
-        shared_engine_rules(rep, repo, facts)
-    except AnalysisError as e:
-        # the shared encoder / compression engines cannot follow the tree: that leaves R13.2.wiring / R13.6 undecided, but it must
-        # not mask a violation that the rules above have already established (same discipline as the deferred instance floors)
-        if not rep.findings:
-            raise
-        rep.note('R13.2.wiring / R13.6 not decided ({}); the violations found by the other rules stand on their own'.format(str(e)[:160]))
+        try:
+            return register_spellings_normalised(facts)[0]
+        except AnalysisError:
+            return None
+
+    def register_numbers():
+        try:
+            lexrules.check_register_numbers(rep, facts, summaries_say)
+        except AnalysisError:
+            # the lookup is not written inside lookup_register itself (a helper class / method): ask the interprocedural encoder
+            # interpreter whether every register operand is converted with int(., 0) before the table lookup
+            from ..encsum import register_spellings_normalised
+            verdict, bad = register_spellings_normalised(facts)
+            if verdict is None:
+                raise
+            rep.count('register table lookups analysed')
+            rep.check(verdict, 'R13.1.registers', 'numeric register spellings in any base go through int(., 0) (encoder summaries)',
+                      lambda: Finding('R13.1.registers', 'lookup_register', 'register lookup', 'register operands of {} reach the register table without int(., 0): hex / binary register numbers are not recognised'.format(
+                          sorted({m for m, p in bad})[:6]), line=facts.funcs['lookup_register'].lineno if 'lookup_register' in facts.funcs else 1), nontrivial=False)
+    step(register_numbers)
+    step(check_numeric_literal_test, rep, facts)
+    step(shared_engine_rules, rep, repo, facts)
     rep.floor('register spellings checked', 129)
     rep.floor('parse paths analysed', 30)
     # semantic floors of the front-end rules: at least one path of each kind was positively understood
